@@ -1,6 +1,7 @@
 #!/usr/bin/env python3
 """Prints the markdown table of seeded changes (DESIGN.md §7) from /verif/seeded/*/meta.json."""
 import json,glob,os,re
+SUM=json.load(open("/verif/selftest/seed_summaries.json"))
 rows=[]
 for d in sorted(glob.glob('/verif/seeded/*/')):
     mp=os.path.join(d,'meta.json')
@@ -8,7 +9,7 @@ for d in sorted(glob.glob('/verif/seeded/*/')):
     m=json.load(open(mp))
     patch=open(os.path.join(d,'patch.diff')).read() if os.path.exists(os.path.join(d,'patch.diff')) else ''
     files=sorted(set(re.findall(r'^\+\+\+ b/(\S+)',patch,re.M)))
-    what=m.get('summary','')
+    what=SUM.get(m['id'],m.get('summary',''))
     rows.append((m['id'],m['breaks_property'],', '.join(files),what,'yes' if m.get('confirmed') else 'NO',' '.join(m.get('caught_by',[])) or '—'))
 print('| seed | property | files | change (what it needs to manifest) | confirmed | caught by (quick tier) |')
 print('|---|---|---|---|---|---|')
